@@ -389,6 +389,14 @@ var c04Hostile = [][]byte{
 	[]byte(`["https://a.b/c",["https://a.b/d"]]`), []byte(`"https://a.b/c"`), []byte(`"not a url"`), []byte(` {"type":"Note"} `), []byte(`{"type":"Note"}x`), []byte(`{"type":"Note"}{"type":"Note"}`), []byte("{\"type\":\"Note\",\"name\":\"a\x00b\"}"),
 	[]byte(`{"@context":1,"type":"Note"}`), []byte(`{"type":"Create","object":{"type":"Create","object":{"type":"Create","object":"https://a.b/c"}}}`), []byte(`{"type":"Relationship","subject":1,"object":2,"relationship":3}`),
 	[]byte(`{"type":"Profile","describes":[]}`), []byte(`{"type":"OrderedCollectionPage","startIndex":"1","orderedItems":"x"}`), []byte(`{"type":"Note","url":1}`), []byte(`{"type":"Note","url":[1,{"href":1}]}`), []byte(`{"type":"Note","mediaType":1}`),
+	// valid documents whose strings hold the characters the string writers treat on their own (escaped and raw): decoding is easy,
+	// the follow-up battery then re-encodes, compares and formats the decoded value
+	[]byte(`{"type":"Note","id":"https://a.b/n","name":"a\u2028b","content":"\u2029","summary":"\u000b\u0008\u000c\u000e\u001d\u001e\u001f\u007f"}`),
+	[]byte("{\"type\":\"Note\",\"name\":\"raw \xe2\x80\xa8 and \xe2\x80\xa9\",\"contentMap\":{\"en\":\"\xe2\x80\xa8\",\"fr\":\"x\\u2029y\"}}"),
+	[]byte(`{"type":"Place","id":"https://a.b/p","units":"m\u2028","name":"\ud83d\ude00\u00e9\ufffd"}`),
+	[]byte(`{"type":"Person","id":"https://a.b/\u2028","preferredUsername":"x\u2029","publicKey":{"id":"https://a.b/k\u2028","owner":"https://a.b/\\","publicKeyPem":"\u2029\u000b"}}`),
+	[]byte(`{"type":"Link\u2028","href":"https://a.b/l","mediaType":"text/\u2029","hrefLang":"e\u2028n","rel":"x\u000b"}`),
+	[]byte(`{"type":"Create","id":"https://a.b/c","object":{"type":"Note","source":{"content":"\u2028\u2029","mediaType":"t\u000b"}},"summaryMap":{"e\u2028n":"v"}}`),
 }
 
 func c04Nest(shape string, depth int) []byte {
